@@ -138,6 +138,7 @@ inductive Act
   | despawn (e : Nat)
   | despawnRec (e : Nat)
   | ewrAdd (wr e v : Nat)
+  | ewrAddNow (wr e v : Nat)
   | ewrRemove (wr : Nat) (trigs : List Trig)
   | wrAdd (wr : Nat) (trigs : List Trig)
   | wrRemove (wr : Nat) (trigs : List Trig)
